@@ -18,14 +18,24 @@ pyo3 0.29 `extract` semantics transcribed (pyo3 `conversions/std/num.rs`, `types
   (`bool` is an `int` too, but it is tried earlier) iff `-2^63 ≤ z < 2^63`, `OverflowError`
   otherwise; `TypeError` on `float`, `str`, `list`, `None`;
 * `extract::<u64>`   `PyLong_AsUnsignedLongLong` on an `int`: succeeds iff `0 ≤ z < 2^64`;
-* `extract::<f64>`   `PyFloat_AsDouble`: a `float` gives itself; an **`int` is accepted too**
-  (`int.__float__`, `PyLong_AsDouble`): correctly rounded (round-half-even to 53 bits),
-  `OverflowError` when the rounded magnitude is ≥ 2^1024; `TypeError` on `str`, `list`, `None`;
+* `extract::<f64>`   `PyFloat_AsDouble`: a `float` gives itself; pyo3 would accept an `int` too
+  (`int.__float__`), which is why the code guards this branch with
+  `!value.is_instance_of::<PyInt>()` (fix of F-25: an int outside both 64-bit ranges is no longer
+  rounded to a float, it falls through to the "not supported" error); `TypeError` on `str`,
+  `list`, `None`;
 * `extract::<String>` only on `str`;
 * `cast::<PyList>`   only on `list` (and subclasses).
 
-The conversion tries, in this order: `is_none`, `bool`, `i64`, `u64`, `f64` (then the finiteness
-test), `String`, list, and otherwise fails with "… is not supported by Trustfall".
+The conversion tries, in this order: `is_none`, `bool`, `i64`, `u64`, `f64` unless the object is an
+`int` (then the finiteness test), `String`, list, and otherwise fails with "… is not supported by
+Trustfall".
+
+History (code before the fix of F-24 / F-25, modelled by earlier revisions of this file):
+* F-24: the list check compared `std::mem::discriminant`, so `[1, 2^63]` (`Int64` vs `Uint64`) was
+  rejected with `mixedList`; now `kind_discriminant` identifies the two integer variants.
+* F-25: the `f64` branch was tried for ints, so `2^64` became `Float64(1.8446744073709552e19)`
+  (round-half-even of `PyLong_AsDouble`), `2^64 + 1` the same float, `-2^63 - 1` a negative float;
+  only ints rounding to ≥ 2^1024 were rejected.
 -/
 import TrustfallModel.Model.Value
 
@@ -54,30 +64,6 @@ inductive Err where
   | unsupported
   deriving Repr, DecidableEq, Inhabited
 
-/-! ### `PyLong_AsDouble` on integers outside the 64-bit ranges -/
-
-/-- Magnitude bits (sign bit cleared) of the f64 nearest to `n` (round-half-even), for `n ≥ 2^53`;
-`none` when the rounded value is ≥ 2^1024 (`OverflowError: int too large to convert to float`).
-Mirrors `_PyLong_Frexp` + `ldexp`. -/
-def natToF64Bits (n : Nat) : Option Nat :=
-  let e := n.log2                      -- 2^e ≤ n < 2^(e+1)
-  let shift := e - 52                  -- keep 53 significant bits
-  let q := n >>> shift
-  let r := n - (q <<< shift)
-  let half := 1 <<< (shift - 1)
-  let up := shift ≠ 0 && (r > half || (r == half && q % 2 == 1))
-  let q' := if up then q + 1 else q
-  -- rounding may carry into the next binade
-  let (m, e') := if q' == 2 ^ 53 then (2 ^ 52, e + 1) else (q', e)
-  if e' > 1023 then Option.none else some ((e' + 1023) * 2 ^ 52 + (m - 2 ^ 52))
-
-/-- Order key (see `values.rs::float_key`) of the f64 that `PyLong_AsDouble` returns for `z`,
-for `|z| ≥ 2^53`. -/
-def intToF64Key (z : Int) : Option Int :=
-  match natToF64Bits z.natAbs with
-  | Option.none => Option.none
-  | some bits => some (if z < 0 then -(bits : Int) else (bits : Int))
-
 /-- `value.extract::<i64>()` on a Python int. -/
 def fitsI64 (z : Int) : Bool := -(2 ^ 63 : Int) ≤ z && z < (2 ^ 63 : Int)
 /-- `value.extract::<u64>()` on a Python int. -/
@@ -87,9 +73,7 @@ def fitsU64 (z : Int) : Bool := 0 ≤ z && z < (2 ^ 64 : Int)
 def fromInt (z : Int) : Except Err Value :=
   if fitsI64 z then .ok (.int64 (Int64.ofInt z))          -- `extract::<i64>()` is `Ok`
   else if fitsU64 z then .ok (.uint64 (UInt64.ofNat z.toNat))  -- `extract::<u64>()` is `Ok`
-  else match intToF64Key z with                            -- `extract::<f64>()` accepts ints
-    | some k => .ok (.float64 k)                           --   (always finite when it succeeds)
-    | Option.none => .error .unsupported                   -- OverflowError → String ✗ → list ✗ → else
+  else .error .unsupported   -- `f64` branch skipped for `PyInt` → String ✗ → list ✗ → else
 
 def isNull : Value → Bool
   | .null => true
@@ -102,9 +86,14 @@ def checkBy {α : Type} (isN : α → Bool) (tag : α → Nat) (l : List α) : B
   | [] => true
   | first :: rest => rest.all (fun o => isN o || tag o == tag first)
 
-/-- "Ensure all non-null items in the list are of the same type": the tag is
-`std::mem::discriminant` of the shim `FieldValue` (so `Int64` and `Uint64` differ). -/
-def listCheck (vs : List Value) : Bool := checkBy isNull Value.disc vs
+/-- `FieldValue::kind_discriminant`: `std::mem::discriminant`, except that `Uint64` reports the
+discriminant of `Int64` (both are the Python / Trustfall type `int`). -/
+def kindDisc : Value → Nat
+  | .uint64 _ => 1
+  | v => v.disc
+
+/-- "Ensure all non-null items in the list are of the same type": the tag is `kind_discriminant`. -/
+def listCheck (vs : List Value) : Bool := checkBy isNull kindDisc vs
 
 mutual
 /-- `impl FromPyObject for FieldValue`. -/
@@ -170,19 +159,13 @@ def noEnumList : List Value → Bool
   | v :: vs => noEnum v && noEnumList vs
 end
 
-/-- The variant that comes back from Python: an unsigned value below `2^63` returns as `Int64`. -/
-def backDisc : Value → Nat
-  | .uint64 u => if u.toNat < 2 ^ 63 then 1 else 2
-  | v => v.disc
-
-/-- `listCheck` phrased on the variants that will come back. -/
-def backCheck (vs : List Value) : Bool := checkBy isNull backDisc vs
-
 mutual
-/-- Every list, at every depth, holds (apart from nulls) values that return from Python as one and
-the same variant; in particular no list mixes integers below and at-or-above `2^63`. -/
+/-- Every list, at every depth, holds (apart from nulls) values of one kind — null / integer (either
+representation) / float / string / boolean / list.  Every value of a schema type is of this shape;
+a Rust `FieldValue::List` mixing, say, an integer and a string has no Trustfall type and no Python
+counterpart that converts back. -/
 def homogeneous : Value → Bool
-  | .list l => homogeneousList l && backCheck l
+  | .list l => homogeneousList l && listCheck l
   | _ => true
 def homogeneousList : List Value → Bool
   | [] => true
@@ -191,11 +174,11 @@ end
 
 /-! ### Python-side description of what is rejected (independent of `fromPy`) -/
 
-/-- Variant a Python object converts to (meaningful when it is accepted). -/
+/-- Kind a Python object converts to (meaningful when it is accepted). -/
 def pyDisc : Py → Nat
   | .none => 0
   | .bool _ => 5
-  | .int z => if fitsI64 z then 1 else if fitsU64 z then 2 else 3
+  | .int _ => 1
   | .float _ => 3
   | .floatNonFinite => 3
   | .str _ => 4
@@ -209,29 +192,18 @@ def pyIsNone : Py → Bool
 def pyListCheck (ps : List Py) : Bool := checkBy pyIsNone pyDisc ps
 
 mutual
-/-- What the code rejects: a non-finite float, an unsupported object, an int so large that even the
-float conversion overflows, a list with a rejected element, or a list whose non-`None` elements
-convert to different variants (`int` below `2^63` vs `int` from `2^63` up count as different). -/
+/-- What the code rejects: a non-finite float, an unsupported object, an int outside
+`[-2^63, 2^64)`, a list with a rejected element, or a list whose non-`None` elements are of
+different kinds (`bool`, `int`, `float`, `str`, `list`). -/
 def rejects : Py → Bool
   | .floatNonFinite => true
   | .other => true
-  | .int z => !fitsI64 z && !fitsU64 z && (intToF64Key z).isNone
+  | .int z => !fitsI64 z && !fitsU64 z
   | .list l => rejectsAny l || !pyListCheck l
   | _ => false
 def rejectsAny : List Py → Bool
   | [] => false
   | p :: ps => rejects p || rejectsAny ps
-end
-
-mutual
-/-- Every Python int inside (at any depth) lies in `[-2^63, 2^64)`. -/
-def intsInRange : Py → Bool
-  | .int z => fitsI64 z || fitsU64 z
-  | .list l => intsInRangeList l
-  | _ => true
-def intsInRangeList : List Py → Bool
-  | [] => true
-  | p :: ps => intsInRange p && intsInRangeList ps
 end
 
 def isOk {ε α : Type} : Except ε α → Bool
